@@ -46,7 +46,7 @@ man = {
                  "kind_free_text": "static analysis: repo CMake -> clang-14 -O0 LLVM IR per unit -> llvm-link -> mem2reg -> C++ exporter "
                                    "(sa/ir2facts.cc) -> repository-specific Python rules over CFG/SSA/call graph (sa/props/*.py)"}],
     "checks": checks,
-    "notes": "Every check is static: nothing of cjet is executed. Exit 0 = all obligations discharged (KNOWN-FINDING lines for recorded "
+    "notes": "Every check is static: no cjet binary is built or run; a few small pure functions are turned into tables by finite evaluation of their exported IR (DESIGN.md section 0 says which). Exit 0 = all obligations discharged (KNOWN-FINDING lines for recorded "
              "defects), 1 = VIOLATION, 2 = analysis broken (anchor missing / floor not met). See DESIGN.md.",
     "not_applicable": na,
 }
